@@ -10,7 +10,7 @@ PROP = "C20"
 LEVEL = "exploration"
 RULE = ("differential: node A runs a generated history H (SDO traffic incl. aborted / mutated transfers and reconfiguration of 1017h, 1016h, "
         "1005h/1006h and PDO parameters, heartbeats, SYNCs, RPDOs, LSS requests, SDO client requests left busy, EMCY, NMT state changes, "
-        "application timers, ticks, optionally ending between COTmrService and COTmrProcess; every 4th pair a sparse configuration with a single timer period and the reset taken while the expired event is unprocessed), then NMT reset communication (or reset node); node B is a FRESH executor initialised with exactly the "
+        "application timers, ticks, every 4th pair with the reset requested by the application from inside a callback of the stack (heartbeat event / state change, SDO client completion, timer callback), optionally ending between COTmrService and COTmrProcess; every 4th pair a sparse configuration with a single timer period and the reset taken while the expired event is unprocessed), then NMT reset communication (or reset node); node B is a FRESH executor initialised with exactly the "
         "dictionary values A holds after the reset; both receive the same probe sequence P (every service, >= 3 periods of every cyclic "
         "producer) and the traces (frames with relative ticks, callbacks, API results, driver calls) must be equal, frames of one tick "
         "compared as a multiset; timer-pool occupancy per owner class must be equal apart from A's live application timers, which keep their slots and their exact period through H, reset and P; the timer processing right after the reset must run nothing of the old communication; "
@@ -274,7 +274,28 @@ class AppTimers:
         return None
 
 
-def run_pair(res, exe, rng, first, sched=False):
+def callback_reset(rng, cfg, kind):
+    """The end of H when the application itself resets the node - from inside a callback of the stack, i.e. while the service that
+    informs it is still on the call stack.  Returns command lines (the last one runs the callback) or None."""
+    typ = 2 if kind == 130 else 1
+    cons = [(cfg.get(0x1016, s_).args[0], cfg.get(0x1016, s_).args[1]) for s_ in range(1, 5) if cfg.has(0x1016, s_)]
+    cons = [(n_, t_) for (n_, t_) in cons if t_ > 0 and 1 <= n_ <= 127]
+    opts = ["apptmr", "csdo"] + (["hbevent", "hbevent", "hbchange"] if cons else [])
+    w = rng.choice(opts)
+    ms = max(1, 1000 // cfg.freq)
+    if w == "apptmr":
+        return w, ["tmrcreate %d 0 9" % rng.choice([1, 3, 7]), "resetin apptmr %d" % typ, "tick 8"]
+    if w == "csdo":
+        if not cfg.has(0x1280, 3):
+            return None
+        return w, ["rx %x 8 8000000000000008" % (0x580 + g_srv(cfg)), "tick 1001", "csdoup 0 2000 0 4 %d" % (5 * ms), "resetin csdo %d" % typ, "tick 8"]
+    n_, t_ = rng.choice(cons)
+    if w == "hbevent":
+        return w, ["rx %x 1 05" % (0x700 + n_), "resetin hbevent %d" % typ, "tick %d" % (t_ * cfg.freq // 1000 + 2)]
+    return w, ["rx %x 1 05" % (0x700 + n_), "resetin hbchange %d" % typ, "rx %x 1 7f" % (0x700 + n_)]
+
+
+def run_pair(res, exe, rng, first, sched=False, cbreset=False):
     if sched:
         cfg, hist, napp = make_sched(rng)
         interesting = True
@@ -300,8 +321,46 @@ def run_pair(res, exe, rng, first, sched=False):
         stA = a.state()
         if stA["mode"] not in ("2", "3", "4"):
             return                      # H left the node outside the reachable set of the property (not counted)
-        occ_before = a.occ()
-        evs = a.rx(0, bytes([kind, nid]))
+        cbr = callback_reset(rng, cfg, kind) if cbreset else None
+        if cbreset and (cbr is None or stA["mode"] == "4"):
+            return
+        if cbr:
+            occ_before = a.occ()         # (before the one-shot timer whose callback requests the reset is created)
+            for l in cbr[1][:-2]:
+                app.feed(a.cmd(l), "H")
+            a.cmd("geterr")
+            a.cmd(cbr[1][-2])
+            hist = hist + cbr[1]
+            last = cbr[1][-1]
+            k_ = None
+            for _ in range(int(last.split()[1]) if last.startswith("tick") else 1):
+                # tick by tick: the step in which the callback runs is the last one of H
+                evs = a.cmd("tick 1" if last.startswith("tick") else last)
+                k_ = next((i_ for i_, e_ in enumerate(evs) if e_[0] == "cb" and e_[1] == "resetin"), None)
+                if k_ is not None:
+                    break
+                if app.feed(evs, "H"):
+                    break
+            if k_ is None:
+                res.counters["callback_reset_not_reached"] += 1
+                return
+            if [e_ for e_ in evs[k_ + 1:] if e_[0] == "cb" and e_[1] == "resetin"]:
+                res.inconclusive.append("two resets inside callbacks in one step")
+                return
+            msg = app.feed(evs, "H")
+            evs = evs[k_ + 1:]           # what the node does from the reset on (the rest of that step included)
+            # the reset ends an SDO client transfer that is open (its completion callback, and what the scripted application does in
+            # it, belong to the reset) - except the transfer whose completion callback requested the reset: that one has ended
+            allowed = ("mode", "apptmr", "resetreq", "lssload") + (() if cbr[0] == "csdo" else ("csdo", "csdoreq", "csdoemcy", "csdotimer"))
+            late = [e_ for e_ in evs if e_[0] == "cb" and e_[1] not in allowed]
+            if late:
+                res.violation("c20/callback-reset/after-effects", "reset requested inside the %s callback: after the reset the same step still produced %r | end of H: %s" % (
+                    cbr[0], late[:4], "; ".join(h[:40] for h in hist[-6:])), sim=a)
+                return
+            res.counters["reset_inside_" + cbr[0]] += 1
+        else:
+            occ_before = a.occ()
+            evs = a.rx(0, bytes([kind, nid]))
         boot = [x for x in S.txs(evs)]
         if [(x[1], x[3]) for x in boot] != [(0x700 + nid, b"\x00")]:
             res.violation("c20/bootup", "reset emitted %r, reference one boot-up frame" % [("%x" % x[1], x[3].hex()) for x in boot], sim=a)
@@ -387,7 +446,7 @@ def work(item, ctx):
     res = F.Res()
     for h in range(item[2]):
         rng = random.Random(F.seed_for(ctx["seed"], "C20", item[1], h))
-        run_pair(res, ctx["exes"]["asan"], rng, item[1] == 0 and h == 0, sched=(h % 4 == 3))
+        run_pair(res, ctx["exes"]["asan"], rng, item[1] == 0 and h == 0, sched=(h % 4 == 3), cbreset=(h % 4 == 1))
     return res
 
 
@@ -401,6 +460,8 @@ def selftest(ctx):
 
 def finish(total, tier):
     p = []
+    if sum(v for k, v in total.counters.items() if k.startswith("reset_inside_")) < 60:
+        p.append("only %d resets from inside a callback" % sum(v for k, v in total.counters.items() if k.startswith("reset_inside_")))
     if total.evals < 300:
         p.append("only %d (H, P) pairs completed" % total.evals)
     return p
